@@ -293,8 +293,14 @@ func (fr *frame) loopHead(li *loopInfo, st *State, entryPhis map[*ssa.Phi]T) {
 		})
 	}
 	if !c.scan {
-		if c.loopAll[li.key] {
+		if c.loopAll[li.key] && !c.loopAllUnknown[li.key] {
+			c.rawHavoc = true
+			c.havocAllCallees(st, c.loopCallees[li.key])
+			c.rawHavoc = false
+		} else if c.loopAll[li.key] {
+			c.rawHavoc = true
 			c.havocAll(st)
+			c.rawHavoc = false
 		} else {
 			var names []string
 			for n := range c.loopWrites[li.key] {
@@ -327,7 +333,7 @@ func (fr *frame) loopHead(li *loopInfo, st *State, entryPhis map[*ssa.Phi]T) {
 				if n == HLockW || n == HLockR || n == HDefW || n == HDefR {
 					continue
 				}
-				if n == HAlloc {
+				if n == HAlloc || n == HPriv {
 					old := c.getHeap(st, n)
 					c.havocHeap(st, n)
 					nw := st.heaps[n]
